@@ -257,4 +257,7 @@ func TestVerifReplay_Batch(t *testing.T) {
 		}
 	}
 	t.Logf("driver: %d batches, none disagrees with the reference", n)
+	if sp := os.Getenv("VERIF_REPLAY_STATS"); sp != "" {
+		os.WriteFile(sp, []byte(fmt.Sprintf(`{"cases": %d}`, n)), 0o644)
+	}
 }
